@@ -109,6 +109,202 @@ def real_lists(cfg, names):
     return out, [names['hostkey'][a] for a in cfg['hostkey']]
 
 
+HK_INVS = ['SigAlgNegotiated', 'FailOnlyIfNoCommon', 'ClientOffered']
+
+
+def hk_run(ctx, label, invariants=HK_INVS, expect=None, workers=8, **consts):
+    d = dict(ServerKeySets='{{"rsa"}, {"rsa", "ed"}}',
+             ClientAlgs='{"rsa1", "rsa256", "rsa512", "ed"}', MaxLen=2,
+             NConn=2, Interleave='FALSE', Mode='"percopy"', Emit='FALSE')
+    d.update(consts)
+    tag = 'c03_hk_' + ''.join(ch if ch.isalnum() else '_' for ch in label)[:50]
+    name = f'_{tag}.cfg'
+    lines = ['CONSTANTS'] + [f'  {k} = {v}' for k, v in d.items()]
+    lines += ['SPECIFICATION Spec', 'CHECK_DEADLOCK FALSE']
+    lines += [f'INVARIANT {i}' for i in invariants]
+    with open(os.path.join(SPEC, name), 'w') as f:
+        f.write('\n'.join(lines) + '\n')
+    try:
+        res = tlc.run(SPEC, 'HostKeyAlg', name, tag, workers=workers,
+                      timeout=1500)
+    finally:
+        os.remove(os.path.join(SPEC, name))
+        tlc.cleanup(tag)
+    ctx.require_tlc_ok(f'HostKeyAlg {label}', res, expect_violation=expect)
+    return res
+
+
+def hk_histories(ctx, label, **consts):
+    res = hk_run(ctx, label + ' (history table)',
+                 invariants=HK_INVS + ['Emitted'], workers=1, Emit='TRUE',
+                 **consts)
+    from harness.drivers.handshake import printed_cases
+    out = []
+    for v in printed_cases(res.output, 'hist'):
+        out.append(dict(keys=sorted(v[1]['$set']), lists=v[2], pred=v[3]))
+    ctx.require(out, f'no histories printed by TLC for {label}')
+    return out
+
+
+def hk_discriminating(h):
+    """A history on which one of the deviating rules of the specification
+    (shared pair / sticky pair) would sign differently from the design."""
+    return any(len(set(p.values())) > 1 for p in h['pred'])
+
+
+def hostkey_section(ctx, H, quick, rnd, state):
+    """Host key / signature algorithm as a negotiated dimension of its own:
+    multi-algorithm keys, several keys, histories on one listener."""
+    W = 4 if quick else 8
+    allsets = ('{{"rsa"}, {"rsa", "ed"}, {"rsacert", "ed"}, '
+               '{"rsa", "rsacert", "edcert", "ec"}}')
+    allalgs = '{"rsa1", "rsa256", "rsa512", "ed", "c1", "c256", "c512"}'
+    certsets = '{{"rsacert"}, {"rsacert", "rsa", "edcert"}}'
+    certalgs = '{"c1", "c256", "c512", "rsa256", "ced"}'
+    # design: any interleaving of the connections of one listener
+    hk_run(ctx, 'design, 2 interleaved connections, plain and certificate '
+           'keys', ServerKeySets=allsets, ClientAlgs=allalgs,
+           Interleave='TRUE', workers=W)
+    if not quick:
+        hk_run(ctx, 'design, 3 interleaved connections', NConn=3,
+               Interleave='TRUE', workers=W)
+        hk_run(ctx, 'design, 2 interleaved connections, lists <= 3',
+               ServerKeySets=allsets, ClientAlgs=allalgs, MaxLen=3,
+               Interleave='TRUE', workers=W)
+    # sensitivity: the rules that keep the choice in the shared key pair
+    hk_run(ctx, 'sensitivity: choice kept in the shared pair, interleaved',
+           Mode='"shared"', Interleave='TRUE', expect='SigAlgNegotiated',
+           invariants=['SigAlgNegotiated'], workers=W)
+    hk_run(ctx, 'sensitivity: choice kept in the shared pair, certificate '
+           'pair, one connection after the other', Mode='"shared"',
+           ServerKeySets='{{"rsacert"}}', ClientAlgs='{"c1", "c256", "c512"}',
+           expect='SigAlgNegotiated', invariants=['SigAlgNegotiated'],
+           workers=W)
+    hk_run(ctx, 'sensitivity: sticky pair, one connection after the other',
+           Mode='"sticky"', expect='SigAlgNegotiated',
+           invariants=['SigAlgNegotiated'], workers=W)
+
+    tabs = [hk_histories(ctx, '3 connections, RSA and ed25519 keys',
+                         NConn=3),
+            hk_histories(ctx, '2 connections, certificate keys',
+                         ServerKeySets=certsets, ClientAlgs=certalgs)]
+    if not quick:
+        tabs.append(hk_histories(
+            ctx, '2 connections, lists <= 3, plain and certificate keys',
+            ServerKeySets='{{"rsa", "rsacert", "edcert", "ec"}, '
+                          '{"rsa", "ed"}}',
+            ClientAlgs='{"rsa1", "rsa512", "c1", "c256", "ed"}', MaxLen=3))
+    R = H.HK_REAL
+    tally = state['hk'] = {'connections': 0, 'histories': 0,
+                           'interleaved': 0, 'failed_as_predicted': 0}
+
+    def run_one(h, schedule):
+        lists = [[R[a] for a in l] for l in h['lists']]
+        obs = H.run_history(set(h['keys']), lists, schedule)
+        judge_history(ctx, H, h, schedule, obs, tally)
+        state['traces'] += 1
+
+    for tab in tabs:
+        rnd.shuffle(tab)
+        disc = [h for h in tab if hk_discriminating(h)]
+        rest = [h for h in tab if not hk_discriminating(h)]
+        nd, nr = (110, 40) if quick else (1500, 500)
+        for h in disc[:nd] + rest[:nr]:
+            run_one(h, None)
+        # interleavings: two connections of the history, every order of the
+        # server's choose / sign steps
+        seen = set()
+        pairs = []
+        for h in disc + rest:
+            h2 = dict(keys=h['keys'], lists=h['lists'][:2],
+                      pred=h['pred'][:2])
+            k = str((h2['keys'], h2['lists']))
+            a, b = (p['percopy'] for p in h2['pred'])
+            if k in seen or 'none' in (a, b) or a == b:
+                continue
+            seen.add(k)
+            pairs.append(h2)
+        scheds = H.interleavings(2)
+        for n, h2 in enumerate(pairs[:(30 if quick else 400)]):
+            for sch in scheds:
+                run_one(h2, sch)
+        if not quick:
+            sch3 = H.interleavings(3, limit=30, rnd=rnd)
+            for h in [x for x in disc if len(x['lists']) == 3][:60]:
+                for sch in sch3[:10]:
+                    run_one(h, sch)
+    # client side: a server that signs with another algorithm than the
+    # negotiated one (not an on-path edit: observation only)
+    notes = []
+    for offered, forced in (('rsa-sha2-512', 'ssh-rsa'),
+                            ('ssh-rsa', 'rsa-sha2-512')):
+        o = H.run_history({'rsa'}, [[offered]], None, force_sig=forced)[0]
+        notes.append(f'client offering only {offered}, server signs with '
+                     f'{o.sig_alg}: client '
+                     f'{"accepted" if o.completed else "refused"}')
+    ctx.notes.append('observation (not judged, the server is hostile, not '
+                     'the path): ' + '; '.join(notes))
+    ctx.notes.append(f'host key algorithm histories: {tally}')
+    ctx.require(tally['connections'] > 200 and tally['interleaved'] > 50,
+                f'host key history replay is vacuous: {tally}')
+
+
+def judge_history(ctx, H, h, schedule, obs, tally):
+    sched = 'sequential'
+    if schedule is not None:
+        steps = [x for x in schedule if x[0] != 'open']
+        for n, (what, i) in enumerate(steps[:-1]):
+            if what == 'choose' and tuple(steps[n + 1]) != ('sign', i):
+                sched = 'interleaved'
+    tally['histories'] += 1
+    tally['interleaved'] += schedule is not None
+    recipe = {'kind': 'history', 'keys': h['keys'], 'lists': h['lists'],
+              'pred': h['pred'], 'schedule': schedule, 'kex': 'n/a',
+              'label': f'history {h["lists"]} on keys {h["keys"]} '
+                       f'({sched})'}
+    ctx.count(('hist', str(h['keys']), str(h['lists']), str(schedule)))
+    for i, o in enumerate(obs):
+        tally['connections'] += 1
+        want = h['pred'][i]['percopy']
+        if not o.completed:
+            if want != 'none':
+                ctx.divergence(f'{recipe["label"]}: connection {i} failed '
+                               f'({o.exc!r}), the model negotiates {want}')
+            else:
+                tally['failed_as_predicted'] += 1
+            continue
+        neg = o.neg
+        exp = H.sig_alg_of(neg) if neg else None
+        sig = {'module': 'Handshake', 'clause': 'SigAlgNegotiated',
+               'schedule': sched,
+               'keytype': 'cert' if neg and neg.endswith(H.CERT_SUFFIX)
+               else 'plain'}
+        what = (f'connection {i + 1} of {len(obs)} to one listener '
+                f'(host keys {h["keys"]}, client lists '
+                f'{[[H.HK_REAL[a] for a in l] for l in h["lists"]]}, '
+                f'{sched}' + (f' {schedule}' if schedule else '') + '): ')
+        if o.sig_alg != exp:
+            ctx.violation(sig, what + f'the KEXINITs on the wire negotiate '
+                          f'{neg} (first on the client list the server has '
+                          f'a key for), the exchange hash was signed with '
+                          f'{o.sig_alg}', replay=recipe)
+        elif o.ks_type != H.key_blob_type_of(neg):
+            ctx.violation(dict(sig, clause='HostKeyNegotiated'),
+                          what + f'negotiated {neg}, server presented a key '
+                          f'of type {o.ks_type}', replay=recipe)
+        if o.verified is not True:
+            ctx.violation(dict(sig, clause='SignatureVerifies'),
+                          what + f'the signature does not verify over the '
+                          f'session id under {o.sig_alg} (independent '
+                          f'verifier)', replay=recipe)
+        if want == 'none' or H.HK_REAL[want] != exp:
+            ctx.divergence(f'{recipe["label"]}: connection {i}: the wire '
+                           f'negotiates {neg}, the model {want}')
+        if o.loop_exceptions:
+            ctx.divergence(f'{recipe["label"]}: exception reached the '
+                           f'event loop: {o.loop_exceptions[0][:160]}')
+
+
 def main(ctx):
     warnings.filterwarnings('ignore')
     from harness.drivers import handshake as H
@@ -144,9 +340,11 @@ def main(ctx):
         tlc_run(ctx, 'sensitivity: hash omits client KEXINIT', KexType='"dh"',
                 HashOmit='{"IC"}', EditListMode='"few"', expect='EditDetected',
                 invariants=['EditDetected'], workers=W)
-        tlc_run(ctx, 'sensitivity: hash omits server version', KexType='"gex"',
-                HashOmit='{"VS"}', EditListMode='"few"', expect='EditDetected',
-                invariants=['EditDetected'], workers=W)
+        if not quick:
+            tlc_run(ctx, 'sensitivity: hash omits server version',
+                    KexType='"gex"', HashOmit='{"VS"}', EditListMode='"few"',
+                    expect='EditDetected', invariants=['EditDetected'],
+                    workers=W)
         tlc_run(ctx, 'sensitivity: both KEXINITs unhashed allow a downgrade',
                 KexType='"dh"', HashOmit='{"IC", "IS"}', MaxEdits=2,
                 VaryCats='{"enc"}', EditListMode='"single"',
@@ -219,6 +417,13 @@ def main(ctx):
                 ctx.violation(dict(sig, clause='AgreeOrFail', mismatch=mism),
                               f'{kex}: {label}: sides report different '
                               f'algorithms {mism}', replay=replay)
+            neg, kst, sga = H.wire_hostkey_choice(o.mitm)
+            if not bound and neg is not None and \
+                    sga != H.sig_alg_of(neg):
+                ctx.violation(dict(sig, clause='SigAlgNegotiated'),
+                              f'{kex}: {label}: KEXINITs negotiate host key '
+                              f'algorithm {neg}, exchange hash signed with '
+                              f'{sga}', replay=replay)
             if o.ran_command and o.echo != 'pong:ping':
                 ctx.divergence(f'{kex}: {label}: completed but the session '
                                f'did not carry a command: {o.client_exc!r}')
@@ -291,6 +496,22 @@ def main(ctx):
         with open(ctx.replay_path) as f:
             rp = json.load(f)['replay']
         kex = rp['kex']
+        if rp['kind'] == 'history':
+            h = dict(keys=rp['keys'], lists=rp['lists'], pred=rp['pred'])
+            sch = rp['schedule'] and [tuple(x) for x in rp['schedule']]
+            obs = H.run_history(set(h['keys']),
+                                [[H.HK_REAL[a] for a in l]
+                                 for l in h['lists']], sch)
+            tally = {'connections': 0, 'histories': 0, 'interleaved': 0,
+                     'failed_as_predicted': 0}
+            judge_history(ctx, H, h, sch, obs, tally)
+            for i, o in enumerate(obs):
+                print(f'connection {i}: completed={o.completed} negotiated '
+                      f'on the wire={o.neg} key={o.ks_type} signed with='
+                      f'{o.sig_alg} verifies={o.verified}')
+            ctx.traces_validated(1)
+            ctx.level = 'exploration'
+            return
         if rp['kind'] == 'case':
             o = replay_case(kex, rp['case'], rp['names'], rp['variant'])
         else:
@@ -527,6 +748,9 @@ def main(ctx):
                     'group15' in kex
                 byte_sweep(kex, 4 if heavy else 1, True, [0x01, 0x80, 0xff],
                            'bytes')
+
+    # ---- 5. host key / signature algorithm, histories on one listener ----
+    hostkey_section(ctx, H, quick, rnd, state)
 
     ctx.traces_validated(state['traces'])
     ctx.notes.append(f'handshakes run against the implementation: '
